@@ -277,6 +277,9 @@ func (r *Reconciler) updateInstanceWithCurrentRS(logger logr.Logger, now time.Ti
 			// if the Canary Deployment is not active anymore remove the canary annotations
 			updateDaemonsetAnnotations = clearCanaryAnnotations(newDaemonset)
 		}
+	} else {
+		// the canary strategy was removed: a canary that was running is over, its nodes go back to the active replica set
+		newDaemonset.Status.Canary = nil
 	}
 
 	// Check if newDaemonset differs from existing daemonset, and update if so
